@@ -1207,8 +1207,24 @@ class Cache:
             try:
                 value = self._disk.fetch(mode, filename, db_value, read)
             except IOError:
-                # Key was deleted before we could retrieve result.
-                return default
+                # Key was deleted or replaced before we could retrieve
+                # result. Look again while no writer can replace it.
+                with self._transact(retry) as (sql, _):
+                    rows = sql(select, (db_key, raw, time.time())).fetchall()
+
+                    if not rows:
+                        return default
+
+                    (
+                        (rowid, db_expire_time, db_tag, mode, filename, db_value),
+                    ) = rows  # noqa: E127
+
+                    try:
+                        value = self._disk.fetch(
+                            mode, filename, db_value, read
+                        )
+                    except IOError:
+                        return default
 
         else:  # Slow path, transaction required.
             cache_hit = (
